@@ -27,6 +27,20 @@ CLAIMED["C01"] = (
     "incremental values equal from-scratch values.",
     "Trusted: rustc nightly MIR construction; the frozen anchor table in engine/qbv/rules/C01.py; executors are pure.")
 
+CLAIMED["C02"] = (
+    "typestate / who-may-construct rules, listener-before-unlock dominance, lock-gap write-back rule (guard lifetimes from rustc's maybe-init analysis) over all bodies, join-loop exit rules",
+    "Decides: executor reachable only with a ComputingLockGuard that is built only in the Vacant arm after insert_entry; waiters create their listener under the "
+    "entry/shard lock and release it before awaiting; finishers remove before notify; no store through a re-acquired lock of data computed in an earlier critical "
+    "section without re-check (whole workspace); lock-table pin predicate; parallel repair results trusted only after all chunks were joined. Not decided: soundness "
+    "and termination over all interleavings.",
+    "Trusted: rustc nightly MIR + MaybeInitializedPlaces; scc entry_sync holds the bucket lock; Notify semantics; the frozen anchors in engine/qbv/rules/C02.py and lockgap.py.")
+CLAIMED["C03"] = (
+    "control-dependence (flag-sensitive edge dominance) of every work-starting / dirtiness-spreading site on its justifying predicate, recognised semantically (PartialEq results, enum discriminants, promoted constants)",
+    "Decides: inputs enqueued only on fingerprint change; propagation stops at firewall/projection callers; recomputed firewall/projection spreads only on change; "
+    "in-lock double check; re-execution only on Recompute/backward-projection; clean edges skipped by exactly the documented condition; executor call sites. "
+    "Not decided: minimality per invocation over all histories.",
+    "Trusted: rustc nightly MIR; the frozen anchors in engine/qbv/rules/C03.py.")
+
 NOT_YET = "check under construction in this round (DESIGN.md section 5 lists its clauses); not claimed until its rules are armed and self-tested"
 
 checks = []
